@@ -154,6 +154,20 @@ def r2(rep, prog):
                 okc = True
         rep.check(okc, R, "garbage_collect_files passes SegmentUpdater::list_files as the living set", "closure calls list_files",
                   "the closure given to garbage_collect no longer calls SegmentUpdater::list_files", site=gb.span)
+    # at every call site of ManagedDirectory::garbage_collect the closure must *compute* the living
+    # set when it is called (i.e. under the locks), not hand over a snapshot taken earlier
+    SNAPSHOT_OK = {I + "single_segment_index_writer::SingleSegmentIndexWriter::<D>::finalize_inner":
+                   "single-segment writer: no concurrent indexing or merging exists, the set was computed from the only segment just before"}
+    for (cb_, bi_, t_) in prog.who_calls({MDI + "garbage_collect"}):
+        tr = trace_back(cb_, op_local(t_["args"][1])) if op_local(t_["args"][1]) is not None else []
+        clo = prog.body(tr[-1][1]) if tr and tr[-1][0] == "agg" and "{closure" in str(tr[-1][1]) else None
+        computes = clo is not None and any(ct.get("f", "").endswith("::list_files") or ct.get("f", "").endswith("list_all_segment_metas") for _, ct in clo.calls())
+        if cb_.id in SNAPSHOT_OK:
+            rep.ok(R, "%s passes a precomputed living set" % short(cb_.id), "permitted: " + SNAPSHOT_OK[cb_.id], site=site(cb_, bi_))
+            continue
+        rep.check(computes, R, "%s: the living set is computed inside the closure" % short(cb_.id), "closure calls list_files when invoked (under the GC's locks)",
+                  "`%s` hands garbage_collect a closure that does not compute the living files when called (a snapshot taken earlier): files created in between are managed but not living, and are deleted while being written" % cb_.id,
+                  site=site(cb_, bi_))
     lf = get_body(rep, prog, R, SU + "SegmentUpdater::list_files")
     if lf is not None:
         rule_must_pass(rep, prog, R, lf.id, {"tantivy::index::index::Index::list_all_segment_metas"}, "Index::list_all_segment_metas (inventory)", exits="all")
